@@ -53,7 +53,11 @@ def render(cat, f, content, star=None):
                 out.append("    %s  %s %s" % (p["acct"], p["amt"], p["comm"]))
             else:
                 out.append("    " + p["acct"])
-    return "\n".join(out) + "\n"
+    text = "\n".join(out) + "\n"
+    if content.get("big"):
+        # an oversized rendering of the same content (limits.maxFileSizeBytes = BIG_LIMIT in both workspaces)
+        text += "; padding padding padding padding padding padding padding\n" * (BIG_LIMIT // 50 + 2)
+    return text
 
 
 def mc_module(n, incl, txs, decl):
@@ -66,9 +70,12 @@ def mc_module(n, incl, txs, decl):
             % (incl_s, txs_s, decl_s))
 
 
-def cfg(n, maxops, repair=True, initall=True, globrepair=True, absent=False):
+BIG_LIMIT = 2000
+
+
+def cfg(n, maxops, repair=True, initall=True, globrepair=True, absent=False, big=False, sizerepair=True):
     return ("CONSTANTS N = %d  MaxOps = %d  TemplateRepair = %s  InitAll = " + ("TRUE" if initall else "FALSE") + " GlobRepair = " + ("TRUE" if globrepair else "FALSE")
-            + " Absent = " + ("TRUE" if absent else "FALSE") + "\n InclMenu <- MInclMenu\n TxsMenu <- MTxsMenu\n DeclMenu <- MDeclMenu\n"
+            + " Absent = " + ("TRUE" if absent else "FALSE") + " Big = " + ("TRUE" if big else "FALSE") + " SizeRepair = " + ("TRUE" if sizerepair else "FALSE") + "\n InclMenu <- MInclMenu\n TxsMenu <- MTxsMenu\n DeclMenu <- MDeclMenu\n"
             "INIT Init\nNEXT Next\nINVARIANTS MembersOK TplOK Emit\nCHECK_DEADLOCK FALSE\n") % (n, maxops, "TRUE" if repair else "FALSE")
 
 
@@ -117,6 +124,17 @@ def gen(run):
         r = run.tlc("MCWorkspace", cfg(3, 2, absent=True), mode="simulate", simulate=2500, depth=3, workers=1, timeout=2400,
                     extra_modules={"MCWorkspace": mc_module(3, [[], [4], [3, 4], [2], [2, 4]], TXS_SMALL[:2], [[]])})
         hs += [("glob3_2", x) for x in r.json]
+    # a size limit in force: every content also in an oversized rendering (refused as an included file, by a rebuild and by
+    # an update alike); a member that grows over the limit must leave (SizeRepair = FALSE violates MembersOK)
+    bmod = {"MCWorkspace": mc_module(3, [[], [2], [2, 3]], [[1]], [[]])}
+    bad = run.tlc("MCWorkspace", cfg(3, 1, big=True, sizerepair=False).replace(" Emit", ""), workers=4, allow_violation=True, collect_json=False, extra_modules=bmod)
+    if bad.ok or "Invariant MembersOK is violated" not in bad.stdout:
+        vf.die_tooling("Workspace.tla: keeping a member that grew over the size limit no longer violates MembersOK — the model is vacuous")
+    ex = run.tlc("MCWorkspace", cfg(3, 1 if not thorough else 2, big=True), workers=8, timeout=2400, extra_modules=bmod).json
+    cap = 1500 if not thorough else 30000
+    if len(ex) > cap:
+        ex = run.rng.sample(ex, cap)
+    hs += [("big3_1", x) for x in ex]
     if thorough:
         # declarations and a fourth transaction list: sampled from the pool of 4 x 4 x 2 = 32 contents per file
         # (32^3 x 96 = 3.1 million histories) by simulation, one update each
@@ -164,7 +182,8 @@ def to_harness(idx, case):
     NAMES[1] = root_name(idx, case)
     files = {NAMES[f]: render(cat, f, init[f - 1], n + 1) for f in range(1, n + 1) if not init[f - 1].get("absent")}
     ops = [{"file": NAMES[st["file"]], "content": render(cat, st["file"], st["content"], n + 1)} for st in h[1:]]
-    return {"id": str(idx), "files": files, "ops": ops}
+    anybig = any(c.get("big") for c in init) or any(st["content"].get("big") for st in h[1:])
+    return {"id": str(idx), "files": files, "ops": ops, "size": BIG_LIMIT if anybig else 0}
 
 
 def tpl_of(cat, t):
